@@ -306,11 +306,13 @@ Definition mem_state := list string.   (* _public_names *)
 Fixpoint parse_type_def (fuel : nat) (C : cfg) (S : schema) (frs : list fragdef)
          (pub : mem_state) (class_name type_name : string) (sels : list sel)
          (add_typename : bool) (extra_bases : list string) (tvalues : option (list string))
-  : res (list pclass * mem_state) :=
+  : res (list pclass * mem_state * bool) :=
+  (* third component: ghost flag, true iff some class was skipped because its name was already
+     in _public_names (two selection paths mangled to one class name, finding F22) *)
   match fuel with
   | O => Err "fuel"
   | S fuel' =>
-      if mem class_name pub then Ok ([], pub)
+      if mem class_name pub then Ok ([], pub, true)
       else
         let pub := pub ++ [class_name] in
         rf <- resolve fuel' S frs sels type_name ;;
@@ -324,7 +326,7 @@ Fixpoint parse_type_def (fuel : nat) (C : cfg) (S : schema) (frs : list fragdef)
                       end) ++ extra_bases in
         r <- fold_left (fun acc f =>
                st <- acc ;;
-               let '(pfs, extra, pub) := st in
+               let '(pfs, extra, pub, sk) := st in
                let key := field_key f in
                let name := py_field_name C key in
                t <- schema_field_type S type_name (fn_name f) ;;
@@ -348,19 +350,21 @@ Fixpoint parse_type_def (fuel : nat) (C : cfg) (S : schema) (frs : list fragdef)
                             p_discriminator := is_union_ann a |} in
                (* _parse_field_selection_set_types *)
                ex <- (match fn_sub f with
-                      | None => Ok ([], pub)
+                      | None => Ok ([], pub, false)
                       | Some sub =>
                           fold_left (fun acc2 rc =>
                             st2 <- acc2 ;;
-                            let '(cls, pub2) := st2 in
+                            let '(cls, pub2, sk2) := st2 in
                             q <- parse_type_def fuel' C S frs pub2 (r_class rc) (r_type rc) sub
                                    (x_abstract ctx) (fn_mixins f)
                                    (Some (typename_values S (x_related ctx) (r_type rc))) ;;
-                            Ok (cls ++ fst q, snd q)) (x_related ctx) (Ok ([], pub))
+                            let '(qc, qp, qs) := q in
+                            Ok (cls ++ qc, qp, sk2 || qs)) (x_related ctx) (Ok ([], pub, false))
                       end) ;;
-               Ok (pfs ++ [pf], extra ++ fst ex, snd ex)) fields (Ok ([], [], pub)) ;;
-        let '(pfs, extra, pub) := r in
-        Ok ({| c_name := class_name; c_bases := bases; c_fields := pfs |} :: extra, pub)
+               let '(exc, exp, exs) := ex in
+               Ok (pfs ++ [pf], extra ++ exc, exp, sk || exs)) fields (Ok ([], [], pub, false)) ;;
+        let '(pfs, extra, pub, sk) := r in
+        Ok ({| c_name := class_name; c_bases := bases; c_fields := pfs |} :: extra, pub, sk)
   end.
 
 Inductive defn :=
@@ -380,12 +384,12 @@ Definition result_classes (fuel : nat) (C : cfg) (S : schema) (frs : list fragde
   | DOp kind name mixins sels =>
       tn <- root_type_name S kind ;;
       r <- parse_type_def fuel C S frs [] (pascal_s name) tn sels false mixins None ;;
-      Ok (fst r)
+      Ok (fst (fst r))
   | DFrag f =>
       if unpack_fragment S f None then Ok []
       else r <- parse_type_def fuel C S frs [] (pascal_s (fr_name f)) (fr_on f) (fr_sel f) false
                   (fr_mixins f) None ;;
-           Ok (fst r)
+           Ok (fst (fst r))
   end.
 
 (* ---- sexp interface ---- *)
